@@ -109,3 +109,13 @@ Corollary py_bind_canon_inj s c1 c2 b1 b2 :
   py_bind s c1 = Some b1 -> py_bind s c2 = Some b2 -> canon s b1 = canon s b2 ->
   Forall2 (fun e1 e2 => fst e1 = fst e2 /\ aveq (snd e1) (snd e2)) b1 b2.
 Proof. intros H1 H2. apply canon_inj; eapply py_bind_typed; eassumption. Qed.
+
+
+(* the fallback form {'*': args, '**': kwargs} of callables that are not walked (builtins, classes, partial
+   objects, callable instances) keeps every argument: it is injective in (args, kwargs) *)
+Theorem fallback_injective c1 c2 : filter_args_opaque c1 = filter_args_opaque c2 -> c1 = c2.
+Proof. destruct c1, c2. unfold filter_args_opaque. cbn. intros H. injection H as -> ->. reflexivity. Qed.
+
+Theorem fallback_class : forall is_method is_function,
+  takes_fallback is_method is_function = true <-> is_method = false /\ is_function = false.
+Proof. intros [|] [|]; cbn; intuition discriminate. Qed.
